@@ -267,13 +267,22 @@ func checkParse(c *run.Ctx, t opTable, lexemes []string, seps []string) (accepte
 // ---- law oracle: trees rendered with full / minimal / redundant parentheses ----
 
 type ptree struct {
-	kind string // leaf pre post bin tern call mem sub list
-	op   ref.OpDecl
-	text string
-	kids []*ptree
+	extra int    // redundant pairs of parentheses around this node when it is an operand
+	kind  string // leaf pre post bin tern call mem sub list
+	op    ref.OpDecl
+	text  string
+	kids  []*ptree
 }
 
 func genTree(r *rand.Rand, t opTable, d int) *ptree {
+	p := genTree0(r, t, d)
+	if r.Intn(12) == 0 {
+		p.extra = 1 + r.Intn(2)
+	}
+	return p
+}
+
+func genTree0(r *rand.Rand, t opTable, d int) *ptree {
 	leaves := []string{"a", "b", "c", "1", "2.5", "\"s\"", "true", "x1", "名"}
 	if d <= 0 || r.Intn(5) == 0 {
 		return &ptree{kind: "leaf", text: leaves[r.Intn(len(leaves))]}
@@ -344,13 +353,17 @@ func (p *ptree) sexp() string {
 // full renders with parentheses around every composite operand.
 func (p *ptree) full(out *[]string) {
 	wrap := func(k *ptree) {
-		if k.kind == "leaf" || k.kind == "list" {
+		if (k.kind == "leaf" || k.kind == "list") && k.extra == 0 {
 			k.full(out)
 			return
 		}
-		*out = append(*out, "(")
+		for i := 0; i <= k.extra; i++ {
+			*out = append(*out, "(")
+		}
 		k.full(out)
-		*out = append(*out, ")")
+		for i := 0; i <= k.extra; i++ {
+			*out = append(*out, ")")
+		}
 	}
 	switch p.kind {
 	case "leaf":
@@ -469,8 +482,27 @@ func runC08(c *run.Ctx) {
 		if ti%5 != 0 {
 			t = randomTable(r, ti)
 		}
+		// a sibling table: the same operators in the same order, binding powers
+		// shifted by a fraction (same integer part where possible); both are
+		// used alternately in this process
+		sib := opTable{name: t.name + "-sibling"}
+		for _, d := range t.decl {
+			d2 := d
+			if float64(int(d.BP)) == d.BP || int(d.BP) == 0 {
+				d2.BP = d.BP + []float64{0.125, 0.25, 0.375}[r.Intn(3)]
+			} else {
+				d2.BP = float64(int(d.BP)) // (a power of 0 would make the operator unusable)
+			}
+			sib.decl = append(sib.decl, d2)
+		}
+		sib.ops = toOper(sib.decl)
+		base := t
 		for k := 0; k < per; k++ {
 			id := fmt.Sprintf("law/%d/%d", ti, k)
+			t := base
+			if k%2 == 1 {
+				t = sib
+			}
 			c.Case(id, func() {
 				tr := genTree(r, t, 1+r.Intn(4))
 				var lx []string
